@@ -1,9 +1,9 @@
 (* C05 driver.  stdin: "case <id>", ops, "end".
    ops:  C <lbl> <np> <prog> <args> | Y r | V r | M r | D r | S r1 r2 | U r1 r2 | T dt | X | Z
          prog = levels separated by '/', a level = steps and a final statement separated by ',':
-                w<d> p<d> t (start the next level here)  then  e<val> r<j> L x o k<d> q<d> h S K<n> N
+                w<d> p<d> P<w<n>|p>(:<d><W<e>|U|D>)* (park with a helper program) t (start the next level here)  then  e<val> r<j> L x o k<d> q<d> h S K<n> N
          args = value tokens separated by ',' or '-';  value token: n i<k> f<k> s<k> z l<k> v<k> a<k> c<k>
-   prints per op  m <call> | <records> | n=<running> th=<threads>[ hang][ UB]   (model) then  s ...  (specification) *)
+   prints per op  m <call> | <records> | n=<running> th=<threads> vm=<VMs>[ hang][ UB]   (model) then  s ...  (specification) *)
 let kinds = "ifszlvac"
 let num (w : string) : int =
   if String.length w > 1 then (try int_of_string (String.sub w 1 (String.length w - 1)) with _ -> 0) else 0
@@ -13,6 +13,20 @@ let parse_val (w : string) : dval =
     | Some k -> DData (n_of_int k, (if w.[0] = 'z' then n_of_int 0 else n_of_int (num w)))
     | None -> DNil
 let split c s = List.filter (fun w -> w <> "") (String.split_on_char c s)
+(* P<w<n>|p>(:<d><W<e>|U|D>)*  e.g. Pw5:1W5:1D *)
+let parse_park (w : string) : step =
+  let parts = String.split_on_char ':' w in
+  let lead = List.hd parts in
+  let wt = if String.length lead >= 2 && lead.[1] = 'w'
+    then Some (n_of_int (try int_of_string (String.sub lead 2 (String.length lead - 2)) with _ -> 0)) else None in
+  let act (a : string) : (n * hact) =
+    let i = ref 0 in
+    while !i < String.length a && a.[!i] >= '0' && a.[!i] <= '9' do incr i done;
+    let d = if !i = 0 then 0 else int_of_string (String.sub a 0 !i) in
+    let rest = String.sub a !i (String.length a - !i) in
+    let arg = if String.length rest > 1 then (try int_of_string (String.sub rest 1 (String.length rest - 1)) with _ -> 0) else 0 in
+    (n_of_int d, (if rest = "" then APause else match rest.[0] with 'W' -> AWait (n_of_int arg) | 'D' -> ADelete | _ -> APause)) in
+  SPark (wt, List.map act (List.filter (fun x -> x <> "") (List.tl parts)))
 let parse_level (p : string) : level =
   let rec go pre post seen = function
     | [] -> (List.rev pre, List.rev post, FFall)
@@ -23,6 +37,7 @@ let parse_level (p : string) : level =
        | 't' -> go pre post true rest
        | 'w' -> add (SWait (n_of_int (num w)))
        | 'p' -> add (SPause (n_of_int (num w)))
+       | 'P' -> add (parse_park w)
        | 'e' -> fin (FEnd (RLit (parse_val (String.sub w 1 (String.length w - 1)))))
        | 'r' -> fin (FEnd (RArg (nat_of_int (num w))))
        | 'L' -> fin (FEnd RLocal)
@@ -75,7 +90,7 @@ let obs_str (o : obs) : string =
   let recs = if o.orecs = [] then "-" else
       String.concat " " (List.map (fun (r, ts) ->
           Printf.sprintf "r%d=%s" (int_of_n r) (if ts = [] then "-" else String.concat "," (List.map tok_str ts))) o.orecs) in
-  Printf.sprintf "%s | %s | n=%d th=%d%s%s" call recs (int_of_nat o.onrun) (int_of_nat o.onth)
+  Printf.sprintf "%s | %s | n=%d th=%d vm=%d%s%s" call recs (int_of_nat o.onrun) (int_of_nat o.onth) (int_of_nat o.onth)
     (if o.ohang then " hang" else "") (if o.oub then " UB" else "")
 let () =
   let lines = read_lines stdin in
